@@ -165,3 +165,22 @@ Proof.
   unfold Cone_scale, Cone_op_init, Point3D_scale, Vector3D_op_add, Vector3D_op_sub, Vector3D_op_mul. cbv zeta.
   split; [crunchA | reflexivity].
 Qed.
+
+(* ------------------------------------------------------------------ arcs: move and scale carry every point of the arc (the angular
+   parameters are untouched, so the same oracle values appear on both sides; rotate / reflect re-compute angles and are searched) *)
+From LBG Require Import G5_bound.
+
+Theorem arc2_move_point_at qcos qsin qpi a m t :
+  Point2D_move (Arc2D_point_at qcos qsin qpi a t) m =2= Arc2D_point_at qcos qsin qpi (Arc2D_move a m) t.
+Proof.
+  unfold Arc2D_point_at, Arc2D_move, Arc2D_op_init, Arc2D_angle, Arc2D_is_inverted, Point2D_move. cbv zeta. cbn [a2_c a2_r a2_a1 a2_a2].
+  destruct (Qle_bool _ _); unfold v2eq; cbn [v2x v2y]; repeat split; ring.
+Qed.
+
+Theorem arc2_scale_point_at qcos qsin qpi a k o t :
+  Point2D_scale (Arc2D_point_at qcos qsin qpi a t) k o =2= Arc2D_point_at qcos qsin qpi (Arc2D_scale a k o) t.
+Proof.
+  unfold Arc2D_point_at, Arc2D_scale, Arc2D_op_init, Arc2D_angle, Arc2D_is_inverted, Point2D_scale, Vector2D_op_add, Vector2D_op_mul, Point2D_op_sub.
+  cbv zeta. cbn [a2_c a2_r a2_a1 a2_a2].
+  destruct (Qle_bool _ _); unfold v2eq; cbn [v2x v2y]; repeat split; ring.
+Qed.
